@@ -109,6 +109,7 @@ const (
 	fBadJSONHTML  = "invalid-json-html-page"
 	fBadJSONCut   = "invalid-json-cut-document"
 	fSvcBadEntry  = "services-invalid-entry"
+	fHashLongLine = "hash-list-overlong-line"
 )
 
 var genericFaults = []string{
@@ -117,6 +118,14 @@ var genericFaults = []string{
 }
 
 var faultTargets = []string{tIdx, tRLa, tRLb, tRLc, tSvc, tSSGen, tSSYT, tHPAdult, tHPDanger, tHPNewReg}
+
+// kindClass merges fault kinds that differ only in the garbage they send.
+func kindClass(k string) string {
+	if k == fBadJSONHTML || k == fBadJSONCut {
+		return "undecodable-document"
+	}
+	return k
+}
 
 func isIdxVariant(k string) bool { return strings.HasPrefix(k, "idx-") }
 func isIdxKnown(k string) bool   { return strings.HasPrefix(k, "idx-known-") }
@@ -193,13 +202,20 @@ func (w *world) behaviourFor(t string, v int, f *faultSpec, chunked bool) (b beh
 	case fTruncLate:
 		return behaviour{Kind: bTruncCL, Body: body, Cut: len(body) - 1, Version: v}, false
 	case fTruncChunked:
-		return behaviour{Kind: bTruncChnk, Body: body, Cut: half + chunkSize, Version: v}, false
+		return behaviour{Kind: bTruncChnk, Body: body, Cut: min(half+chunkSize, len(body)-1), Version: v}, false
 	case fBadJSONHTML:
 		return behaviour{Kind: bOK, Body: []byte("<html><body><h1>502 Bad Gateway</h1>the origin is down</body></html>\n"), Version: v}, false
 	case fBadJSONCut:
 		return behaviour{Kind: bOK, Body: body[:half], Chunked: chunked, Version: v}, false
 	case fSvcBadEntry:
 		return behaviour{Kind: bOK, Body: svcText(v, true), Chunked: chunked, Version: v}, false
+	case fHashLongLine:
+		// a complete transfer of a hash list one of whose lines is longer than
+		// the scanner of the hash storage accepts
+		cut := bytes.LastIndexByte(body[:half], '\n') + 1
+		long := append(bytes.Repeat([]byte("a"), 70000), ".example\n"...)
+		nb := append(append(append([]byte(nil), body[:cut]...), long...), body[cut:]...)
+		return behaviour{Kind: bOK, Body: nb, Chunked: chunked, Version: v}, false
 	}
 	if isIdxVariant(f.Kind) {
 		// a complete index version some of whose entries are invalid
@@ -386,7 +402,7 @@ func (ru *runner) checkDisk(w *world, dir string, where string, f *faultSpec, wi
 		summ[n] = "NOT-A-COMPLETE-VERSION: " + what
 		kind := "none"
 		if f != nil {
-			kind = f.Kind
+			kind = kindClass(f.Kind)
 		}
 		if wit == nil {
 			continue
@@ -395,7 +411,7 @@ func (ru *runner) checkDisk(w *world, dir string, where string, f *faultSpec, wi
 		wm["file"] = n
 		wm["file_is"] = what
 		wm["file_bytes"] = describeBytes(b)
-		r.Violation(fmt.Sprintf("%s:cache-file-not-a-complete-version:%s:%s", where, targetClass(t), kind),
+		r.Violation(fmt.Sprintf("cache-file-not-a-complete-version:%s:%s", targetClass(t), kind),
 			"a cache file holds bytes that are not any complete version ever served for it", wm)
 	}
 	return vers, summ
@@ -657,13 +673,13 @@ func (ru *runner) finalRestart(w *world, sc scenario, conf instConf, recs []roun
 	}
 	kind, tclass := "none", "none"
 	if lastFault != nil {
-		kind, tclass = lastFault.Kind, targetClass(lastFault.Target)
+		kind, tclass = kindClass(lastFault.Kind), targetClass(lastFault.Target)
 	}
 	w.allDown()
 	witness := func() map[string]any {
 		return map[string]any{"scenario": sc, "pattern": sc.pattern(), "rounds": recs, "step": "restart with every server down"}
 	}
-	dv, summ := ru.checkDisk(w, conf.Dir, "before-restart", lastFault, witness)
+	dv, summ := ru.checkDisk(w, conf.Dir, "before-restart", lastFault, nil)
 	// the start-up needs the index, the services, both safe-search lists and
 	// the three hash lists; rule lists that are missing are merely not served
 	need := []string{tIdx, tSvc, tSSGen, tSSYT, tHPAdult, tHPDanger, tHPNewReg}
@@ -694,7 +710,7 @@ func (ru *runner) finalRestart(w *world, sc scenario, conf instConf, recs []roun
 		wm := witness()
 		wm["cache_dir"] = summ
 		wm["start_result"] = res
-		r.Violation(fmt.Sprintf("restart-fails:%s:after-%s-on-%s", cause, kind, tclass),
+		r.Violation(fmt.Sprintf("restart-fails:%s:after-%s", cause, kind),
 			"after the refresh rounds a restart with the server unreachable fails although every cache file exists", wm)
 		return
 	}
@@ -746,6 +762,9 @@ func applicable() []faultSpec {
 		out = append(out, faultSpec{k, tIdx}, faultSpec{k, tSvc})
 	}
 	out = append(out, faultSpec{fSvcBadEntry, tSvc})
+	for _, t := range hpTargets {
+		out = append(out, faultSpec{fHashLongLine, t})
+	}
 	for _, k := range idxExtraKinds {
 		out = append(out, faultSpec{k, tIdx})
 	}
@@ -854,8 +873,8 @@ func (ru *runner) scenarios() []scenario {
 		out = append(out, mkScenario(idx, p, f, alt, rng))
 		idx++
 	}
-	for _, f := range pairs {
-		rng := r.Rand("scenario-gen", idx)
+	for pi, f := range pairs {
+		rng := r.Rand("scenario-gen-initial", pi)
 		if rng.IntN(3) != 0 || slowFault(f.Kind) {
 			continue
 		}
@@ -884,7 +903,11 @@ func (ru *runner) faultRounds() {
 							r.Violation("panic:fault-rounds", fmt.Sprintf("panic while refreshing/filtering: %v", p), map[string]any{"scenario": sc})
 						}
 					}()
+					ts := time.Now()
 					ru.runScenario(sc)
+					if d := time.Since(ts); d > 1500*time.Millisecond && os.Getenv("VERIF_C13_DEBUG") != "" {
+						fmt.Printf("SLOW scenario %d %s %s: %v\n", sc.Idx, sc.pattern(), vkit.JSON(sc.Rounds), d)
+					}
 				}()
 			}
 		}()
@@ -917,7 +940,9 @@ func TestCheck(t *testing.T) {
 	}
 	ru := &runner{r: r, t: t, scratch: scratch, timeout: 1000, triples: map[string]struct{}{}}
 	t0 := time.Now()
-	ru.faultRounds()
+	if os.Getenv("VERIF_C13_SKIP_ROUNDS") == "" {
+		ru.faultRounds()
+	}
 	r.Extra("fault_rounds_wall_s", time.Since(t0).Seconds())
 
 	t1 := time.Now()
@@ -931,4 +956,13 @@ func TestCheck(t *testing.T) {
 	r.Require("cache_files_compared", 3000)
 	r.Require("restarts_ok", 100)
 	r.Require("partial_index_valid_entries_applied", 8)
+	r.Require("kills", 90)
+	r.Require("kills/stall", 30)
+	r.Require("kills/inject", 40)
+	r.Require("kills/random", 8)
+	r.Require("distinct_crash_points", 70)
+	r.Require("distinct_crash_points/inject/renameat", 12)
+	r.Require("distinct_crash_points/inject/fsync", 6)
+	r.Require("distinct_crash_points/inject/utimensat", 6)
+	r.Require("restarts_after_kill_verified", 90)
 }
